@@ -1,13 +1,19 @@
 package main
 
 import (
+	"context"
+	"encoding/json"
 	"fmt"
 	"go/ast"
 	"go/constant"
 	"go/token"
+	"os"
+	"os/exec"
+	"path/filepath"
 	"regexp"
 	"strconv"
 	"strings"
+	"time"
 )
 
 // Bounded stand-ins (labelled bounded, never counted as proved).
@@ -20,13 +26,14 @@ import (
 // client message starts with). regexp semantics cannot be put under a contract of this verifier.
 
 type BoundedCheck struct {
-	Name   string
-	Props  []string
-	Kind   string
-	Target string
-	MaxLen int
-	Where  string
-	Pkg    string
+	TestName string
+	Name     string
+	Props    []string
+	Kind     string
+	Target   string
+	MaxLen   int
+	Where    string
+	Pkg      string
 }
 
 type BoundedResult struct {
@@ -107,6 +114,9 @@ func (p *Prog) regexpSource(pkgPath, varName string) (string, error) {
 
 func (p *Prog) runBounded(c *BoundedCheck) *BoundedResult {
 	res := &BoundedResult{Check: c}
+	if c.Kind == "gotest" {
+		return p.runBoundedGoTest(c)
+	}
 	src, err := p.regexpSource(c.Pkg, c.Target)
 	if err != nil {
 		res.Err = err
@@ -149,7 +159,63 @@ func (p *Prog) runBounded(c *BoundedCheck) *BoundedResult {
 	return res
 }
 
+// runBoundedGoTest runs a bounded enumeration written as an in-package Go test (kept in /verif/bounded, injected
+// with -overlay). The test prints "GOVC-BOUNDED evaluations=<n>" on success and
+// "GOVC-BOUNDED-FAIL <witness>" on the first failing case.
+func (p *Prog) runBoundedGoTest(c *BoundedCheck) *BoundedResult {
+	res := &BoundedResult{Check: c}
+	var pkgDir string
+	for _, pk := range p.sortedPkgs() {
+		if pk.PkgPath == c.Pkg && len(pk.GoFiles) > 0 {
+			pkgDir = filepath.Dir(pk.GoFiles[0])
+		}
+	}
+	if pkgDir == "" {
+		res.Err = fmt.Errorf("package %s not found", c.Pkg)
+		return res
+	}
+	src := c.Target
+	if !filepath.IsAbs(src) {
+		src = filepath.Join(p.specDir, "..", src)
+	}
+	if _, err := os.Stat(src); err != nil {
+		res.Err = err
+		return res
+	}
+	tmp, _ := os.MkdirTemp("", "govc-bounded-")
+	defer os.RemoveAll(tmp)
+	ov := filepath.Join(tmp, "ov.json")
+	b, _ := json.Marshal(map[string]any{"Replace": map[string]string{filepath.Join(pkgDir, "zz_govc_bounded_test.go"): src}})
+	os.WriteFile(ov, b, 0o644)
+	ctx, cancel := context.WithTimeout(context.Background(), 300*time.Second)
+	defer cancel()
+	cmd := exec.CommandContext(ctx, "go", "test", "-v", "-overlay", ov, "-vet=off", "-count=1", "-timeout", "240s", "-run", "^"+c.TestName+"$", ".")
+	cmd.Dir = pkgDir
+	cmd.Env = append(os.Environ(), "GOFLAGS=-mod=mod", "GOPROXY=off", "GOSUMDB=off", "GOTOOLCHAIN=local")
+	out, _ := cmd.CombinedOutput()
+	text := string(out)
+	if i := strings.Index(text, "GOVC-BOUNDED-FAIL"); i >= 0 {
+		res.OK = false
+		res.Witness = strings.TrimSpace(strings.SplitN(text[i+len("GOVC-BOUNDED-FAIL"):], "\n", 2)[0])
+		res.Detail = "bounded enumeration " + c.TestName + " found a failing case: " + res.Witness
+		return res
+	}
+	if i := strings.Index(text, "GOVC-BOUNDED evaluations="); i >= 0 {
+		fmt.Sscanf(text[i:], "GOVC-BOUNDED evaluations=%d", &res.Evaluations)
+		res.OK = strings.Contains(text, "\nok ") || strings.Contains(text, "PASS")
+		if res.OK {
+			return res
+		}
+	}
+	res.Err = fmt.Errorf("bounded test %s did not complete: %s", c.TestName, truncate(text, 400))
+	return res
+}
+
 func parseBounded(rest, pkg, where string, props []string) (*BoundedCheck, error) {
+	if fs := strings.Fields(rest); len(fs) >= 3 && fs[0] == "gotest" {
+		// "gotest <file relative to /verif> <TestName>"
+		return &BoundedCheck{Name: "bounded/gotest/" + fs[2], Props: props, Kind: "gotest", Target: fs[1], TestName: fs[2], Where: where, Pkg: pkg, MaxLen: 0}, nil
+	}
 	// "regexp <Var>: json-array-label maxlen=<n>"
 	fs := strings.Fields(strings.ReplaceAll(rest, ":", " "))
 	if len(fs) < 4 || fs[0] != "regexp" || fs[2] != "json-array-label" || !strings.HasPrefix(fs[3], "maxlen=") {
